@@ -1,12 +1,13 @@
 import Pyrealb.Driver.Proto
-import Pyrealb.Model.Decl
+import Pyrealb.Model.DeclWF
 import Pyrealb.Gen.DeclEn
 import Pyrealb.Gen.DeclFr
 import Pyrealb.Gen.DocCells
 /-! Line-protocol handlers of the declension model (`drv_decl`).
 
 * `decl`      `{"lang","pos","lemma","lex":[[lemma,[[pos,[[key,value],…]],…]],…],"combos":[[[opt,value],…],…]}`
-              ↦ `{"res":[{"toks":[…],"text":…,"w":n} | {"err":"KeyError"}, …]}` (one answer per option combination);
+              ↦ `{"res":[{"toks":[…],"text":…,"w":n} | {"err":"KeyError"}, …],"usable":bool}` (one answer per option
+              combination; `usable` = the hypothesis `usableB` of `decl_total` on the constructed terminal);
               the tables are the generated ones (`Gen.DeclEn/DeclFr`), the lexicon entries travel in the line
 * `bestmatch` `{"rows":[[val,[[key,value],…]],…],"kv":[[key,value],…]}` ↦ `{"r":val|null,"loop":[…],"spec":[…]}`
               (result of the loop model, the loop's score and the declarative score of every row)
@@ -105,7 +106,11 @@ def declOp : Handler := fun j => do
   let res ← combos.toList.mapM (fun c => do
     let opts ← parseOpts c
     pure (outJson (realize rules lex ⟨lang, pos, lemma.toList, opts⟩)))
-  pure (Json.mkObj [("res", Json.arr res.toArray)])
+  -- the well-formedness predicate of `decl_total` evaluated on the constructed terminal (sweep over the lexicons)
+  let usable := match mkTerm rules lex lang pos lemma.toList with
+    | .ok t0 => usableB rules lex t0
+    | .error _ => false
+  pure (Json.mkObj [("res", Json.arr res.toArray), ("usable", Json.bool usable)])
 
 def parseKV (j : Json) : Except String KeyVals := do
   let a ← j.getArr?
